@@ -98,7 +98,7 @@ pub fn draw_world(
             "b", &mut net_rng, profile.wide_timing
         );
         cfg_b.testbed = false;
-        cfg_b.disk = cfg_a.disk;
+        cfg_b.disk = cfg_a.disk || profile.gen_cfg.w_partition > 0;
         cfg_b.timing = cfg_a.timing.clone();
         let idx = w.add_instance(cfg_b);
         w.insts[idx].skew_secs = *net_rng.pick(&[-120i64, -5, 0, 0, 5, 120]);
@@ -220,6 +220,15 @@ fn run_history_here(
                 {
                     let _ = runner.views();
                     runner.exec(&Op::Pump);
+                }
+            }
+            if runner.dead.is_none() {
+                // Heal what is still partitioned.
+                let down: Vec<usize> = runner.world.insts.iter()
+                    .filter(|i| !i.is_up()).map(|i| i.idx).collect();
+                for inst in down {
+                    let _ = runner.views();
+                    runner.exec(&Op::Heal { inst });
                 }
             }
             if runner.dead.is_none() {
